@@ -42,12 +42,12 @@ def generate(ctx):
 _objs = {}
 def _run(c, sig, center):
     from bycycle.features import compute_features
-    if id(c) not in _objs:       # both mirrored runs of one case use the SAME option objects
-        _objs.clear()
+    if _objs.get('owner') is not c:      # identity of the case dict (id() values are reused after garbage collection)
+        _objs['owner'] = c       # both mirrored runs of one case use the SAME option objects
         bk = dict(c['bk']) if c['bk'] else None
         if bk and 'amp_threshes' in bk: bk['amp_threshes'] = tuple(bk['amp_threshes'])
-        _objs[id(c)] = (bk, dict(c['th']) if c['th'] else {}, implutil.fe_kwargs(c['fk'], c['boundary'], None))
-    bk, th, fek = _objs[id(c)]
+        _objs['v'] = (bk, dict(c['th']) if c['th'] else {}, implutil.fe_kwargs(c['fk'], c['boundary'], None))
+    bk, th, fek = _objs['v']
     return implutil.twice(lambda: implutil.quiet(compute_features, sig, c['fs'], tuple(c['f_range']), center_extrema=center, burst_method=c['method'], burst_kwargs=bk,
                                                  threshold_kwargs=th, find_extrema_kwargs=fek, return_samples=c.get('rs', True)), [sig, bk, th, fek], 'compute_features')
 
